@@ -112,7 +112,7 @@ func shapeOf(t *Term) *Shape {
 			// length prefix?
 			if i+1 < len(segs) {
 				n := segs[i+1]
-				if s.Args[0].Op == "uf" && s.Args[0].Str == "blen" && s.Args[0].Args[0] == n && !isFixedSeg(n) {
+				if !isFixedSeg(n) && n.Op != "pb" && s.Args[0] == BLen(n) {
 					sh.Kinds = append(sh.Kinds, "LP")
 					sh.Args = append(sh.Args, n)
 					i++
